@@ -105,8 +105,12 @@ static void track(void *p, size_t sz) {
     }
     unlock();
 }
-static void untrack(void *p) {
-    if (!p || inside) return;
+static void *bad_bt[4][NFR];
+static int bad_nfr[4];
+static unsigned long bad_frees;      /* free() issued by libsnoopy.so itself on a block that is not live: double / invalid free */
+static int untrack(void *p) {
+    int found = 0;
+    if (!p || inside) return 1;
     lock();
     unsigned h = hashp(p);
     for (unsigned k = 0; k < NSLOT; k++) {
@@ -116,10 +120,12 @@ static void untrack(void *p) {
             t->p = TOMB;
             live_n--;
             live_b -= t->sz;
+            found = 1;
             break;
         }
     }
     unlock();
+    return found;
 }
 
 static int in_boot(void *p) { return (char *) p >= boot && (char *) p < boot + sizeof boot; }
@@ -164,11 +170,28 @@ __attribute__((visibility("default"))) void *realloc(void *o, size_t n) {
     else if (n) track(o, 0);
     return p;
 }
+/* set by the controlled scheduler: called right after a free() issued directly by libsnoopy.so has returned (the block is
+   gone, whatever pointed to it has not been updated yet - an instant at which another thread may fork) */
+__attribute__((visibility("default"))) void (*vheap_after_snoopy_free)(void);
+
 __attribute__((visibility("default"))) void free(void *p) {
+    void *ra = __builtin_return_address(0);
     if (!p || in_boot(p)) return;
     if (!ready) init();
-    untrack(p);
+    int from_snoopy = (uintptr_t) ra >= lo && (uintptr_t) ra < hi;
+    if (!untrack(p) && from_snoopy) {
+        /* the block is not live: handing it to the allocator again would corrupt the heap (glibc only notices some of
+           these); count it and leave it alone */
+        unsigned long n = __sync_fetch_and_add(&bad_frees, 1);
+        if (n < 4) {
+            inside = 1;
+            bad_nfr[n] = backtrace(bad_bt[n], NFR);
+            inside = 0;
+        }
+        return;
+    }
     r_free(p);
+    if (vheap_after_snoopy_free && (uintptr_t) ra >= lo && (uintptr_t) ra < hi) vheap_after_snoopy_free();
 }
 
 __attribute__((visibility("default"))) void vheap_noattr(int on) { noattr = on; }
@@ -210,7 +233,17 @@ __attribute__((visibility("default"))) int vheap_snapshot(char *buf, size_t cap)
             nrep++;
         }
     }
-    off += snprintf(buf + off, cap - off, "],\"since_mark_snoopy\":%lu,\"since_mark_snoopy_bytes\":%lu,\"since_mark_other\":%lu,\"snoopy_live\":%lu,\"snoopy_live_bytes\":%lu}", sn, sb, on, sl, slb);
+    off += snprintf(buf + off, cap - off, "],\"since_mark_snoopy\":%lu,\"since_mark_snoopy_bytes\":%lu,\"since_mark_other\":%lu,\"snoopy_live\":%lu,\"snoopy_live_bytes\":%lu,\"snoopy_bad_frees\":%lu,\"bad_free_bt\":[", sn, sb, on, sl, slb, bad_frees);
+    for (unsigned long b = 0; b < bad_frees && b < 4; b++) {
+        off += snprintf(buf + off, cap - off, "%s[", b ? "," : "");
+        for (int k = 0; k < bad_nfr[b]; k++) {
+            uintptr_t a = (uintptr_t) bad_bt[b][k];
+            if (a >= lo && a < hi) off += snprintf(buf + off, cap - off, "%s\"s+0x%lx\"", k ? "," : "", (unsigned long) (a - base));
+            else off += snprintf(buf + off, cap - off, "%s\"0x%lx\"", k ? "," : "", (unsigned long) a);
+        }
+        off += snprintf(buf + off, cap - off, "]");
+    }
+    off += snprintf(buf + off, cap - off, "]}");
     unlock();
     return (int) off;
 }
